@@ -57,6 +57,8 @@ var (
 	verifRandCount  int
 )
 
+var verifPoisonRound int
+
 type verifAssumeFailed struct{}
 
 func (r *verifHmacRec) Write(p []byte) (int, error) {
@@ -163,10 +165,15 @@ func verifPoolAdversary(on bool) {
 	// the adversary of C11: takes the pooled OCRA buffer, scribbles on it, leaves it with the
 	// model's length and puts it back, so that the next Get (same goroutine) receives it
 	n := int(verifCur.Vars["pool_len"])
+	verifPoisonRound++
+	pat := byte(0xA5)
+	if verifPoisonRound%2 == 0 {
+		pat = 0x5A
+	}
 	b := rfc6287BufPool.Get().(*[]byte)
 	full := (*b)[:cap(*b)]
 	for i := range full {
-		full[i] = 0xA5
+		full[i] = pat
 	}
 	if n > len(full) {
 		n = len(full)
